@@ -239,7 +239,7 @@ func init() {
 		},
 	}
 	Props["C08"] = PropDef{
-		Explanation: "R-TLG over every decoder root of the module; R-PANIC reachability triage; nil-guard of func-typed fields; guarded NewBitStorage calls; R-GUARD string indexes; T-PALCFG width bounds; R-TLG sinks armed in the bot's packet handlers. Decided: Every peer-derived length/count/index reaching a crash sink is proven in range on all paths in the decoders of the enumerated packages; explicit panics reachable from decoder roots are triaged; palette widths from the wire never exceed a machine word. Implicit panics outside these classes are not decided.",
+		Explanation: "R-TLG over every decoder root of the module; R-PANIC reachability triage; nil-guard of func-typed fields; guarded NewBitStorage calls; R-GUARD string indexes; T-PALCFG width bounds; R-TLG sinks armed in the bot's packet handlers; R-RECV a decoding method with a value receiver assigns nothing to its receiver's fields; R-PANIC optional pointer fields of chat/sign and bot/msg. Decided: Every peer-derived length/count/index reaching a crash sink is proven in range on all paths in the decoders of the enumerated packages; explicit panics reachable from decoder roots are triaged; palette widths from the wire never exceed a machine word. Implicit panics outside these classes are not decided.",
 		Run: func(c *Ctx) []core.Ob {
 			armed := pkgPred("net/packet", "level", "chat", "registry", "server/command", "net", "nbt", "nbt/dynbt")
 			// ... and the bot's packet handlers themselves (functions of bot/... that are handed the received
@@ -259,6 +259,8 @@ func init() {
 			obs := c.TLGObs(yes, func(fn *ssa.Function) bool { return inLib(fn) || handler(fn) }, false)
 			obs = append(obs, c.Panics(c.Verif, c.DecoderRoots(), yes, armed)...)
 			obs = append(obs, c.FuncFieldCalls(yes, armed)...)
+			obs = append(obs, c.ValueReceiverDecoders(yes)...)
+			obs = append(obs, c.OptionalPointerDerefs("chat/sign", "bot/msg")...)
 			obs = append(obs, c.StringIndexGuards(armed)...)
 			obs = append(obs, c.StringVarIndexGuards(armed)...)
 			obs = append(obs, c.PaletteConfig()...)
